@@ -786,7 +786,7 @@ fn run_top(world: &mut World, t: usize, op: &STop)
     match op
     {
         STop::Acts(script) => top_acts(world, t, script.clone()),
-        STop::AppReactor(..) => {}
+        STop::AppReactor(..) | STop::Update => {}
         STop::WDespawn(r) => { if let Some(e) = resolve(*r) { world.despawn(e); } else { top_acts(world, t, vec![]) } }
         STop::WDespawnRec(r) =>
         {
@@ -934,6 +934,8 @@ fn run_scenario(path: &str)
         {
             quiescent(app.world_mut());
             if let STop::AppReactor(d, ts) = op { add_app_reactor(&mut app, t, *d, ts); continue }
+            // a whole frame through the real schedules: `Last` = garbage collection, then the removal / despawn poll
+            if let STop::Update = op { log(format!("top {t}")); app.update(); continue }
             run_top(app.world_mut(), t, op);
         }
         let world = app.world_mut();
